@@ -150,7 +150,7 @@ def add_fanout(rng, prog):
     fan = {}
     for tname in ["A", "B"][:rng.randint(1, 2)]:
         ls = []
-        for k in range(rng.randint(2, 4)):
+        for k in range(rng.randint(2, 5)):
             script = []
             for _ in range(rng.randint(1, 2)):
                 r = rng.random()
@@ -159,6 +159,9 @@ def add_fanout(rng, prog):
                 else:
                     script.append(["schedrel", rng.choice(["s1", "s2"]), rng.choice([1, 5, 5, 9])])
             ls.append({"name": f"L{tname}{k}", "script": script})
+        if len(ls) >= 3 and rng.random() < 0.7:
+            # a listener that is not the last one unsubscribes itself after a few notifications
+            ls[rng.randrange(len(ls) - 1)]["script"].append(["unsub", rng.randint(1, 3)])
         fan[tname] = ls
     prog["fanout"] = fan
     n = 0
